@@ -60,6 +60,9 @@ func BuildReplay(property, harness, pkg string, r *PathResult) *ReplayFile {
 }
 
 // NativeReplay runs the harness natively (go test -overlay) on the replay vector and returns the VFRESULT text.
+// RaceReplay makes the next NativeReplay run under the Go race detector.
+var RaceReplay bool
+
 func NativeReplay(opt *LoadOptions, pkgDir, harness, replayPath string, timeout time.Duration) (string, string, error) {
 	ov, _, err := Overlay(&LoadOptions{Repo: opt.Repo, HarnessDir: opt.HarnessDir, Packages: []string{pkgDir}})
 	if err != nil {
@@ -115,7 +118,11 @@ func TestVFReplay(t *testing.T) {
 	modfile := filepath.Join(scratch, "go.mod")
 	copyFile(modfile, filepath.Join(opt.Repo, "go.mod"))
 	copyFile(filepath.Join(scratch, "go.sum"), filepath.Join(opt.Repo, "go.sum"))
-	args := []string{"test", "-tags", "verif", "-vet=off", "-count=1", "-overlay", ovPath, "-run", "^TestVFReplay$", "-v", "-timeout", fmt.Sprintf("%ds", int(timeout.Seconds())), "./" + pkgDir}
+	args := []string{"test", "-tags", "verif", "-vet=off", "-count=1"}
+	if RaceReplay {
+		args = append(args, "-race")
+	}
+	args = append(args, "-overlay", ovPath, "-run", "^TestVFReplay$", "-v", "-timeout", fmt.Sprintf("%ds", int(timeout.Seconds())), "./"+pkgDir)
 	// allocation-size counterexamples are replayed under a 4 GB address-space limit
 	sh := "ulimit -v 12582912; exec go"
 	if timeout <= 20*time.Second {
@@ -133,6 +140,9 @@ func TestVFReplay(t *testing.T) {
 	runErr := cmd.Run()
 	txt := out.String()
 	cmdline := fmt.Sprintf("(gosx replay) cd %s && VF_REPLAY=%s go %s", opt.Repo, replayPath, strings.Join(args, " "))
+	if RaceReplay && strings.Contains(txt, "WARNING: DATA RACE") {
+		return "RACE detected by the Go race detector", cmdline, nil
+	}
 	re := regexp.MustCompile(`VFRESULT: (.*)`)
 	if m := re.FindStringSubmatch(txt); m != nil {
 		return strings.TrimSpace(m[1]), cmdline, nil
@@ -169,6 +179,8 @@ func Confirmed(v Verdict, native string) bool {
 		return native == "ASSERT "+v.Label
 	case "PANIC":
 		return strings.HasPrefix(native, "PANIC")
+	case "RACE":
+		return strings.HasPrefix(native, "RACE")
 	case "DEADLOCK":
 		return strings.HasPrefix(native, "PANIC") && (strings.Contains(native, "deadlock") || strings.Contains(native, "timed out"))
 	case "UNWIND", "ALLOC":
